@@ -6,7 +6,7 @@ lowering drops is listed in DESIGN.md 2.1 (annotations, docstrings, assert/raise
 import ast
 import os
 import z3
-from .engine import SV, Ctx, SymRaise, Unsupported, Infeasible
+from .engine import SV, Ctx, SymRaise, Unsupported, Infeasible, PathEnd
 from .sorts import *  # noqa
 from . import spec
 
@@ -260,6 +260,27 @@ class _Break(Exception):
 
 class _Continue(Exception):
     pass
+
+
+class _LoopDone(PathEnd):
+    """End of the 'arbitrary iteration' path of a loop under contract (the invariant has been re-established)."""
+
+
+class LoopContract:
+    def entry(self, interp, ctx, env, it):
+        pass
+
+    def arbitrary_iteration(self, interp, ctx, env, it):
+        return None
+
+    def after_iteration(self, interp, ctx, env, it, elem):
+        pass
+
+    def on_break(self, interp, ctx, env, it, elem):
+        pass
+
+    def exit(self, interp, ctx, env, it):
+        pass
 
 
 class Env:
@@ -551,7 +572,7 @@ class Interp:
             cb = self.ctor(b)
             r = self.pat_eq_method(b, cb, a)
             if isinstance(r, NotImpl):
-                raise Unsupported('identity comparison of distinct pattern classes')  # falls to `is`
+                return False   # both sides NotImplemented: `a is b`, and objects of different classes are distinct
         return r
 
     def pat_eq_method(self, a, ca, b):
@@ -778,8 +799,22 @@ class Interp:
             if st.finalbody:
                 self.exec_block(st.finalbody, env, module, fn)
 
+    def loop_ordinal(self, fn, st):
+        n = 0
+        if fn is None:
+            return 0
+        for node in ast.walk(fn.node):
+            if isinstance(node, (ast.For, ast.While)):
+                if node is st:
+                    return n
+                n += 1
+        return n
+
     def x_For(self, st, env, module, fn):
         it = self.eval(st.iter, env, module, fn)
+        lc = self.loop_contracts.get((getattr(fn, 'qualname', '?'), self.loop_ordinal(fn, st)))
+        if lc is not None:
+            return self.contracted_loop(lc, st, it, env, module, fn)
         seq = self.iterate(it, st, fn)
         broke = False
         for item in seq:
@@ -794,7 +829,56 @@ class Interp:
         if not broke:
             self.exec_block(st.orelse, env, module, fn)
 
+    def contracted_loop(self, lc, st, it, env, module, fn):
+        """Loop under contract: (entry) invariant holds; (step) from an arbitrary state satisfying the invariant one
+        execution of the REAL body re-establishes it; (exit) code after the loop only knows the invariant."""
+        ctx = self.ctx
+        lc.entry(self, ctx, env, it)
+        which = ctx.choose(2, 'loop: arbitrary iteration / exit')
+        if which == 0:
+            elem = lc.arbitrary_iteration(self, ctx, env, it)
+            ctx.check_feasible()
+            if st is not None and isinstance(st, ast.For):
+                self.assign(st.target, elem, env, module, fn)
+            try:
+                self.exec_block(st.body, env, module, fn)
+            except _Break:
+                lc.on_break(self, ctx, env, it, elem)
+                raise _LoopDone()
+            except _Continue:
+                pass
+            lc.after_iteration(self, ctx, env, it, elem)
+            raise _LoopDone()
+        lc.exit(self, ctx, env, it)
+        ctx.check_feasible()
+        self.exec_block(st.orelse, env, module, fn)
+
     def x_While(self, st, env, module, fn):
+        lc = self.loop_contracts.get((getattr(fn, 'qualname', '?'), self.loop_ordinal(fn, st)))
+        if lc is not None:
+            ctx = self.ctx
+            lc.entry(self, ctx, env, None)
+            which = ctx.choose(2, 'loop: arbitrary iteration / exit')
+            if which == 0:
+                lc.arbitrary_iteration(self, ctx, env, None)
+                ctx.check_feasible()
+                if not self.truth(self.eval(st.test, env, module, fn)):
+                    raise Infeasible()
+                try:
+                    self.exec_block(st.body, env, module, fn)
+                except _Break:
+                    lc.on_break(self, ctx, env, None, None)
+                    raise _LoopDone()
+                except _Continue:
+                    pass
+                lc.after_iteration(self, ctx, env, None, None)
+                raise _LoopDone()
+            lc.exit(self, ctx, env, None)
+            ctx.check_feasible()
+            if self.truth(self.eval(st.test, env, module, fn)):
+                raise Infeasible()
+            self.exec_block(st.orelse, env, module, fn)
+            return
         n = 0
         while self.truth(self.eval(st.test, env, module, fn)):
             n += 1
@@ -897,6 +981,17 @@ class Interp:
         elif isinstance(t, ast.Subscript):
             o = self.eval(t.value, env, module, fn)
             k = self.eval(t.slice, env, module, fn)
+            sym_map = isinstance(o, SV) and o.kind == 'pmap'
+            if isinstance(o, dict) and isinstance(k, SV) and self.is_pat(v) and all(self.is_pat(x) for x in o.values()):
+                o = SV(self.as_pmap(o), 'pmap')
+                sym_map = True
+            if sym_map:
+                # python dict update modelled functionally; only sound without aliasing, so the map must be held in a
+                # plain local variable (assumption 2.3.5: the caller-visible mutation of the argument is not modelled)
+                if not isinstance(t.value, ast.Name):
+                    raise Unsupported('update of a symbolic map that is not a local variable')
+                env.set(t.value.id, SV(spec.pset(o.t, self.as_int(k), v.t), 'pmap'))
+                return
             if isinstance(o, dict):
                 kk = self.dict_key(o, k)
                 o[kk] = v
